@@ -62,7 +62,10 @@ def sod_paths(prog, cls, scalar, name):
                 uniq.append(c)
         if o.kind != 'ret' or o.ret is None or terms.has_unk(o.ret):
             raise AnalysisBroken('sod_1d::%s: a path is not a single expression' % name)
-        res.append((uniq, o.ret))
+        # helpers with several return statements and ternaries select a value: same thing as branching
+        for cs2, r2 in terms.split_ite(uniq, o.ret):
+            if not any(('not', c) in cs2 for c in cs2):
+                res.append((cs2, r2))
     return fn[0], res, roots
 
 
@@ -182,16 +185,24 @@ def check_sod(ctx, prog):
         rt = [f for f in prog.methods_of(cls) if f.n == 'rtbis']
         ctx.require(len(rt) == 1, 'sod_1d::rtbis not found')
         if scalar == 'double':
-            from ..ast import nodes, strip, flat_stmts, show
-            loops = list(nodes(rt[0].body, 'for'))
+            from ..ast import nodes, strip, flat_stmts, show, assigned_in
+            loops = [l_ for kind in ('for', 'while', 'do') for l_ in nodes(rt[0].body, kind) if any(c_.get('n') == 'func' for c_ in nodes(l_.get('body'), 'call'))]
             ctx.require(len(loops) == 1, 'sod_1d::rtbis: bisection loop not found')
-            exits = [n for n in nodes(loops[0]['body'], 'if') if any(True for _ in nodes(n['then'], 'return'))]
+            exits = [n for n in nodes(loops[0]['body'], 'if') if any(True for _ in nodes(n['then'], 'return')) or any(True for _ in nodes(n['then'], 'break'))]
+            # a condition held in a local flag (`const bool converged = ...; if (converged)`) is the flag's initialiser
+            flag_init = {}
+            for dcl in nodes(rt[0].body, 'decl'):
+                for v_ in dcl['vars']:
+                    if v_.get('init') is not None:
+                        flag_init[v_['id']] = v_['init']
             ctx.require(len(exits) >= 1, 'sod_1d::rtbis: no convergence exit inside the loop')
             for ex_ in exits:
                 disj = []
 
-                def split(c):
+                def split(c, depth=0):
                     c = strip(c, casts=True)
+                    if c.get('k') == 'local' and c['id'] in flag_init and depth < 4 and not assigned_in(rt[0].body, c['id']):
+                        return split(flag_init[c['id']], depth + 1)
                     if c.get('k') == 'bin' and c['op'] == '||':
                         split(c['a'])
                         split(c['b'])
@@ -222,6 +233,7 @@ def run(ctx, prog):
     ctx.rule('C08.LOG', 'eval_likelyhood equals exp(eval_loglikelyhood)')
     ctx.rule('C08.MOMENTS', 'eval_post_mean equals m_p and eval_post_var equals sigma_p^2 of the posterior density')
     ctx.rule('C08.CENMOM', 'eval_cen_mom(k) is 0 for odd k and sigma^k (k-1)!! for even k, k = 0..20 (the integer argument is propagated as a constant through factorial)')
+    ctx.rule('C08.MEAN', 'the data mean used by the likelihood/posterior is (sum of all elements of vec_data) / vec_data.size()')
     ctx.rule('C08.UNI', 'the long double instantiation has the same normal forms')
     ctx.explanation = ('cp_normal is decided by canonical normal form with exp, sqrt, the data-vector size and the data mean (a loop summary) as uninterpreted atoms; the moment orders 0..20 '
                        'are enumerated by constant propagation. The Sod clause (root bracketing of the pressure equation, Rankine-Hugoniot and isentropic relations, wave positions) '
@@ -257,7 +269,7 @@ def run(ctx, prog):
         atoms = set()
         for m_ in E_l:
             for a, e in m_:
-                if a[0] == 'fn' and a[1] in ('loop', 'size', 'loopvar'):
+                if a[0] == 'fn' and a[1] in ('loop', 'size', 'loopvar', 'vsum'):
                     atoms.add(a)
         size_atoms = [a for a in atoms if a[1] == 'size']
         if len(size_atoms) != 1:
@@ -267,6 +279,18 @@ def run(ctx, prog):
         two_sd2 = poly.scale(mul(S('sigma_d'), S('sigma_d')), 2)
         lin = {m_: c for m_, c in d(E_l, 'x').items() if not poly.depends({m_: c}, 'x')}      # = n xbar / sd^2
         xbar = mul(mul(lin, mul(S('sigma_d'), S('sigma_d'))), poly.inverse(nvec))
+        # the data mean is the sum of ALL elements of vec_data divided by their number (index loop over [0,size), iterator
+        # loop over [begin,end) or std::accumulate over the same range: one term, vsum)
+        total = mul(xbar, nvec)
+        vs = poly.from_term(('call', 'vsum', (('sym', 'vec_data'),)))
+        summary_atoms = [a for m_ in total for a, e in m_ if a[0] == 'fn' and a[1] in ('loop', 'loopvar')]
+        if poly.add(total, vs, -1) == {}:
+            ctx.ob('C08.MEAN', 'data-mean', True, ev['eval_likelyhood'][1].where, sample='n * xbar = sum of all elements of vec_data')
+        elif summary_atoms:
+            ctx.ob('C08.MEAN', 'data-mean', None, ev['eval_likelyhood'][1].where, 'the data mean is accumulated by a loop the sum idiom does not cover: not decided')
+        else:
+            ctx.ob('C08.MEAN', 'data-mean', False, ev['eval_likelyhood'][1].where,
+                   'n * (data mean used by eval_likelyhood) is %s, expected the sum of all elements of vec_data' % poly.fmt(total)[:160])
         want_l = poly.neg(mul(mul(nvec, poly.inverse(two_sd2)), poly.ipow(add(S('x'), xbar, -1), 2)))
         rs.compare(ctx, 'C08.DENSITY', 'likelihood-exponent', E_l, want_l, ev['eval_likelyhood'][1].where, 'exponent of cp_normal::eval_likelyhood')
         rs.compare(ctx, 'C08.DENSITY', 'likelihood-prefactor', lik[0], poly.const(1), ev['eval_likelyhood'][1].where, 'prefactor of cp_normal::eval_likelyhood')
